@@ -37,7 +37,8 @@ def reach(state):
         return r, told
     r = scen.Runner('requester', react)
     r.user(scen.rq_pdu()); r.settle(4000)
-    assert r.p.state == 5, r.p.state
+    if r.p.state != 5:
+        raise common.LibError('lib: a requester that was handed an A-ASSOCIATE-RQ is in Sta%d, not Sta5' % r.p.state)
     told['assoc'] = True          # the user asked for the association
     return r, told
 
